@@ -19,7 +19,7 @@ for d in rows:
     files = sorted({l[6:] for l in patch.splitlines() if l.startswith('+++ b/')})
     esc = lambda s: (s or '').replace('|', '\\|').replace('\n', ' ')
     out.append('| %s | %s | %s | **%s** | %s | %s |' % (d.get('dir', pid), esc(d.get('summary') or ', '.join(files)), esc(d.get('what_it_needs_to_manifest', '')),
-               d['check_result'], esc(d.get('first_violation', ''))[:160], esc(d.get('history', 'caught by the check as it stood'))))
+               d['check_result'], esc(d.get('first_violation', ''))[:160], esc(d.get('history', 'caught by the check as it stood') + ((' Reported by another property\'s check: ' + d['caught_by_other_check']) if d.get('caught_by_other_check') else ''))))
 n = len(rows); c = sum(1 for d in rows if d['check_result'] == 'CAUGHT'); first = sum(1 for d in rows if d.get('initially', d['check_result']) == 'CAUGHT')
 out += ['', '%d changes kept; %d reported by the quick check today; %d of those were reported by the check as it stood when the change arrived, the others only after the generator / oracle extension described in the history column.' % (n, c, first), '']
 open(os.path.join(V, 'seeded', 'RESULTS.md'), 'w').write('\n'.join(out))
